@@ -318,6 +318,9 @@ static uint64_t constrain_value(const struct dir *d, uint64_t raw, int j, int *s
 	if(d->conv == CV_d || d->conv == CV_i || d->conv == CV_u) {   /* bounded radix-10 digit kernel: |converted value| < DMAX; any upper half for int-class arguments */
 		int narrow = d->lm == LM_none || d->lm == LM_hh || d->lm == LM_h;
 		VP_NATIVE_ONLY(if(getenv("VP_RANDOM")) { int64_t v = (int64_t)((raw >> 8) % DMAX); if((raw & 4) && d->conv != CV_u) v = -v; raw = narrow ? ((raw & 0xFFFFFFFF00000000ull) | (uint32_t)v) : (uint64_t)v; })
+#ifdef VPOS    /* experiment: non-negative, syntactically zero-extended */
+		{ uint64_t keep = raw; raw = raw & 0x3FF; if(narrow) raw |= keep & 0xFFFFFFFF00000000ull; VP_ASSUME((raw & 0x3FF) < DMAX); }
+#endif
 		if(d->conv == CV_u) {
 			uint64_t u = d->lm == LM_none ? (uint32_t)raw : d->lm == LM_hh ? (uint8_t)raw : d->lm == LM_h ? (uint16_t)raw : raw;
 			VP_ASSUME(u < DMAX);
